@@ -1221,6 +1221,7 @@ def generate_sample(
 
     calling_form = types.CallingForm.method_default(rpc)
     sample["is_internal"] = rpc.is_internal
+    sample["client_method_name"] = rpc.client_method_name
 
     v = Validator(rpc, api_schema)
     # Tweak some small aspects of the sample to set defaults for optional
